@@ -68,6 +68,26 @@ func prepareTV(id string) (int, error) {
 				return n, fmt.Errorf("compiling template %s: %v\n%s", name, err, o)
 			}
 			n++
+		case strings.HasSuffix(name, ".gotmpl"):
+			// a Go program used twice: as XGo source (names X_...) through the compiler,
+			// and as plain Go (names R_...) as the reference
+			b, err := os.ReadFile(filepath.Join(src, name))
+			if err != nil {
+				return n, err
+			}
+			base := strings.TrimSuffix(name, ".gotmpl")
+			xsrc := filepath.Join(dir, "tmpl_"+base+".xgo")
+			os.WriteFile(xsrc, []byte(strings.ReplaceAll(string(b), "P_", "X_")), 0644)
+			out := filepath.Join(dir, "xgo_"+base+".go")
+			c := exec.Command(helper, "file", xsrc, out)
+			c.Env = goEnv()
+			c.Dir = hdir
+			if o, err := c.CombinedOutput(); err != nil {
+				return n, fmt.Errorf("compiling template %s as XGo: %v\n%s", name, err, o)
+			}
+			os.Remove(xsrc)
+			os.WriteFile(filepath.Join(dir, "ref_"+base+".go"), []byte(strings.ReplaceAll(string(b), "P_", "R_")), 0644)
+			n++
 		case strings.HasSuffix(name, ".go"):
 			b, err := os.ReadFile(filepath.Join(src, name))
 			if err != nil {
